@@ -469,7 +469,7 @@ def load_corpus(prop):
 
 
 # ---------------------------------------------------------------- implementation runs
-def run_impl(exe, scripts, ns, nw_, timeout=240):
+def run_impl(exe, scripts, ns, nw_, timeout=900):
     """run the scripts in one harness process (restarting after a hang); returns per-script list of output lines"""
     res = [None] * len(scripts)
     i = 0
@@ -526,7 +526,9 @@ def run_property(ctx, prop, profiles, corpus_props, nscripts, configs, trivial_r
     dist = {}
     obs = {"blocked_calls": 0, "released": 0, "opfail": 0, "launched": 0, "skips": 0, "max_released_in_one_step": 0}
     try:
-        for ci, (ns, nwk) in enumerate(configs):
+        for ci, cfg in enumerate(configs):
+            ns, nwk = cfg[0], cfg[1]            # optional third component: number of generated scripts for this configuration
+            count = cfg[2] if len(cfg) > 2 else (nscripts if ci == 0 else max(4, nscripts // 3))
             scripts = []
             for cp in corpus_props:
                 for fn, ls in load_corpus(cp):
@@ -536,7 +538,7 @@ def run_property(ctx, prop, profiles, corpus_props, nscripts, configs, trivial_r
                     sc["name"] = "corpus/%s/%s" % (cp, fn)
                     scripts.append(sc)
             r2 = rng.fork()
-            for k in range(nscripts if ci == 0 else max(4, nscripts // 3)):
+            for k in range(count):
                 pname = profiles[k % len(profiles)]
                 sc = gen_script(r2, model, PROFILES[pname], allow_ret1=(ns * nwk == 1))
                 sc["name"] = "gen:%s:%d" % (pname, k)
@@ -576,7 +578,7 @@ def run_property(ctx, prop, profiles, corpus_props, nscripts, configs, trivial_r
     finally:
         model.close()
     ctx.cov.update(evaluations=evals, distinct_nontrivial=len(nontrivial), samples=samples, input_distribution=dist, observed=obs,
-                   configs=configs, traces_validated_against_impl=evals, correspondence_mismatches=len(mismatches),
+                   configs=[list(c) for c in configs], traces_validated_against_impl=evals, correspondence_mismatches=len(mismatches),
                    proxy_table={"passes": passes, "runs": runs})
     broken = bool(mismatches) or not pr["ok"]
     if not broken:
